@@ -1,0 +1,25 @@
+//go:build verif
+
+// Contracts for the deductive verifier in /verif (comment-only; compiled only with -tags verif).
+package keeper
+
+//@ family prm key global:types.ParamsKey value types.Params
+
+//@ define paramsStored = has(prm) && types.paramsOK(get(prm))
+
+//@ func Keeper.SetParams
+//@   property C16
+//@   returns err
+//@   modifies prm
+//@   ensures stored:   err == nil ==> has(prm) && get(prm) == params && types.paramsOK(params)
+//@   ensures rejected: err != nil ==> prm == old(prm)
+//@ end
+
+//@ func msgServer.UpdateParams
+//@   property C16
+//@   returns resp, err
+//@   modifies prm
+//@   ensures authority: err == nil ==> msg.Authority == m.k.authority
+//@   ensures stored:    err == nil ==> has(prm) && get(prm) == msg.Params && types.paramsOK(msg.Params)
+//@   ensures rejected:  err != nil ==> prm == old(prm)
+//@ end
